@@ -2,7 +2,7 @@
 # usage: bin/confirm_seed.sh <Cxx> <k> <dir-with-mutantK.diff-and-demoK.py>
 # Confirms in a fresh scratch worktree: patch applies, test suite passes with it, demo exits 1 with it and 0 without.
 set -u
-ID="$1"; K="$2"; SRC="$3"
+ID="$1"; K="$2"; SRC="$3"; OUTK="${4:-$2}"
 WT="$(mktemp -d /tmp/seedwt.XXXXXX)"; rmdir "$WT"
 git -C /repo worktree add -q "$WT" HEAD || exit 2
 cp "$SRC/demo$K.py" "$WT/demo.py"
@@ -13,9 +13,9 @@ git apply "$SRC/mutant$K.diff" || { echo "APPLY-FAILED"; cd /; git -C /repo work
 tests=$(/venv/bin/python -m pytest -q -p no:cacheprovider -x 2>&1 | tail -1)
 /venv/bin/python demo.py >/tmp/seed_mut.out 2>&1; mut=$?
 cd /; git -C /repo worktree remove --force "$WT"
-echo "$ID-$K clean_demo_rc=$clean mutant_demo_rc=$mut tests: $tests"
+echo "$ID-$OUTK clean_demo_rc=$clean mutant_demo_rc=$mut tests: $tests"
 if [ "$clean" = "0" ] && [ "$mut" = "1" ] && echo "$tests" | grep -q "273 passed"; then
-  D="/verif/seeded/$ID-$K"; mkdir -p "$D"
+  D="/verif/seeded/$ID-$OUTK"; mkdir -p "$D"
   cp "$SRC/mutant$K.diff" "$D/patch.diff"; cp "$SRC/demo$K.py" "$D/demo.py"
   tail -5 /tmp/seed_mut.out | cut -c1-300 > "$D/demo_output_with_change.txt"
   echo CONFIRMED
